@@ -572,6 +572,8 @@ def groupby_cases(draw, tier):
     hi = 400 if tier == "quick" else 2000
     return {"tool": "groupby", "length": draw(st.integers(50, hi)), "run": draw(st.integers(1, 30)),
             "take": draw(st.integers(0, 40)), "key": draw(st.booleans()),
+            # every group is polled once more after the groupby has moved on (it is stale then and yields nothing)
+            "poll_stale": draw(st.booleans()),
             "src": draw(st.sampled_from(["agen", "aclass", "iter"]))}
 
 
@@ -586,8 +588,13 @@ def check_groupby(case):
         src = lazy_source(reg, n, lambda i: i // runlen, case["src"])
         gb = a.groupby(src, key=(lambda x: x.key)) if case["key"] else a.groupby(src)
         step = 0
+        previous = None
         async for key, group in gb:
             del key
+            if previous is not None and case.get("poll_stale"):
+                async for item in previous:
+                    del item
+            previous = group if case.get("poll_stale") else None
             taken = 0
             async for item in group:
                 del item
